@@ -861,11 +861,11 @@ theorem table_distinct_classes :
 
 
 /-- no compared attribute of `self` is missing in `other`, and no comparison of two attributes of
-the same shape raises anything but the `TypeError` that `__eq__` catches. -/
+the same shape raises anything but the `TypeError` / `ValueError` that `__eq__` catches. -/
 def NoRaise (t : Tol) (keys : List String) (fa fb : Fields) : Prop :=
   ∀ kv ∈ fa.toList, kv.1 ∈ keys →
     ∃ vb, fb.get? kv.1 = some vb ∧
-      (shapeOf kv.2 = shapeOf vb → ∀ e, neV t kv.2 vb = .error e → e = .typeError)
+      (shapeOf kv.2 = shapeOf vb → ∀ e, neV t kv.2 vb = .error e → e = .typeError ∨ e = .valueError)
 
 theorem eqLoop_false (t : Tol) (keys : List String) : ∀ (fa fb : Fields),
     NoRaise t keys fa fb →
@@ -886,7 +886,7 @@ theorem eqLoop_false (t : Tol) (keys : List String) : ∀ (fa fb : Fields),
       by_cases hs : shapeOf va = shapeOf vb
       · simp only [hs, ne_eq, not_true_eq_false, if_false]
         cases hn : neV t va vb with
-        | error e => rw [he hs e hn]
+        | error e => rcases he hs e hn with rfl | rfl <;> rfl
         | ok r =>
           cases r with
           | true => rfl
@@ -2875,6 +2875,7 @@ def noRaise (t : Tol) (keys : List String) (fa fb : Fields) : Bool :=
         decide (shapeOf kv.2 ≠ shapeOf vb) ||
         (match neV t kv.2 vb with
           | .error .typeError => true
+          | .error .valueError => true
           | .error _ => false
           | .ok _ => true)
       | none => false
@@ -2894,7 +2895,7 @@ theorem NoRaise_of_bool (t : Tol) (keys : List String) (fa fb : Fields)
     refine ⟨vb, rfl, ?_⟩
     intro hs e he
     simp only [hs, ne_eq, not_true_eq_false, decide_false, Bool.false_or, he] at this
-    cases e <;> first | rfl | cases this
+    cases e <;> first | exact Or.inl rfl | exact Or.inr rfl | cases this
 
 /-- `eq_detects_partial`: two circles that differ in the radius only (3 against 3.000001). -/
 example : noRaise tolNumpy (cmpKeys "CirclePixelRegion")
@@ -3223,9 +3224,10 @@ theorem get?_isSome_of_mem_keys : ∀ (fs : Fields) (k : String), k ∈ fs.keys 
 
 mutual
 /-- comparing two well-formed values of the same array shape raises nothing but the `TypeError`
-of non-equivalent sky frames (which `Region.__eq__` catches). -/
+of non-equivalent sky frames and the `ValueError` of non-equivalent extra frame attributes (both
+of which `Region.__eq__` catches). -/
 theorem neV_noRaise (t : Tol) : ∀ (a b : V), wf a = true → wf b = true → shapeOf a = shapeOf b →
-    ∀ e, neV t a b = .error e → e = .typeError
+    ∀ e, neV t a b = .error e → e = .typeError ∨ e = .valueError
   | .atom x, .atom y, _, _, _, e, h => by simp [neV] at h
   | .atom x, .node j kb fb, _, _, _, e, h => by simp [neV] at h
   | .node i ka fa, .atom y, _, _, _, e, h => by cases ka <;> simp [neV] at h
@@ -3263,6 +3265,11 @@ theorem neV_noRaise (t : Tol) : ∀ (a b : V), wf a = true → wf b = true → s
     | skycoord =>
       cases kb <;> try (simp [neV] at h; done)
       simp only [neV, neSky] at h
+      by_cases hx : atomOf (fa.get? "extra") = atomOf (fb.get? "extra")
+      swap
+      · simp only [hx, ne_eq, not_false_eq_true, if_true] at h
+        cases h; exact Or.inr rfl
+      simp only [hx, ne_eq, not_true_eq_false, if_false] at h
       by_cases hf : atomOf (fa.get? "frame") = atomOf (fb.get? "frame")
       · simp only [hf, ne_eq, not_true_eq_false, if_false] at h
         simp only [wf, Bool.and_eq_true, decide_eq_true_eq] at hwa hwb
@@ -3281,7 +3288,7 @@ theorem neV_noRaise (t : Tol) : ∀ (a b : V), wf a = true → wf b = true → s
         rw [hrx, hry] at h
         cases h
       · simp only [hf, ne_eq, not_false_eq_true, if_true] at h
-        cases h; rfl
+        cases h; exact Or.inl rfl
     | dict => cases kb <;> simp [neV] at h
     | rmeta => cases kb <;> simp [neV] at h
     | rvisual => cases kb <;> simp [neV] at h
@@ -3318,8 +3325,7 @@ theorem loop_noRaise (t : Tol) (keys : List String) : ∀ (fa fb : Fields),
         have hwvb : wf vb = true := wfF_get keys fb key vb hwb (get?_mem fb key vb hg) hc
         cases hn : neV t va vb with
         | error e' =>
-          rw [neV_noRaise t va vb hwva hwvb hs e' hn]
-          simp
+          rcases neV_noRaise t va vb hwva hwvb hs e' hn with rfl | rfl <;> simp
         | ok r =>
           cases r
           · exact ih
@@ -3364,14 +3370,10 @@ theorem eq_detects_full_holds : eq_detects_full :=
 theorem eq_never_raises (t : Tol) (i j : Nat) (ca cb : String) (fa fb : Fields)
     (hwa : wf (.node i (.region ca) fa) = true) (hwb : wf (.node j (.region cb) fb) = true) :
     ∃ r, eqRegion t (.node i (.region ca) fa) (.node j (.region cb) fb) = .ok r := by
-  have := neV_noRaise t _ _ hwa hwb rfl
-  rw [neV_region] at this
   cases h : eqRegion t (.node i (.region ca) fa) (.node j (.region cb) fb) with
   | ok r => exact ⟨r, rfl⟩
   | error e =>
-    have h2 := this e (by simp [neRegion, h])
-    subst h2
-    -- a TypeError cannot escape `eqRegion`: the loop catches it
+    exfalso
     rw [eqRegion_node] at h
     by_cases h1 : isInstance cb ca = true
     · by_cases hk : cmpKeys ca = cmpKeys cb
@@ -3384,12 +3386,34 @@ theorem eq_never_raises (t : Tol) (i j : Nat) (ca cb : String) (fa fb : Fields)
           have : k ∈ fb.keys.filter (cmpKeys cb).contains := by rw [hfb]; simpa using hk'
           exact (List.mem_filter.mp this).1
         rw [hk] at hwfa
-        exact absurd h (loop_noRaise t (cmpKeys cb) fa fb hwfa hwfb hpres _)
+        exact loop_noRaise t (cmpKeys cb) fa fb hwfa hwfb hpres _ h
       · simp [h1, hk] at h
     · simp [h1] at h
 
 /-- the triangle and the quadrilateral of the former finding are well-formed. -/
 example : wf (polyPix 0 [0, 1, 2] [0, 1, 0]) = true ∧ wf (polyPix 10 [0, 1, 2, 3] [0, 1, 0, 1]) = true ∧
     wf wCompoundSky = true := by decide +kernel
+
+
+/-- a sky circle whose centre carries the extra frame attributes `extra` (as a descriptor). -/
+def wCircleSkyX (i : Nat) (extra : String) : V :=
+  .node i (.region "CircleSkyRegion")
+    (.cons "center" (.node (i + 1) .skycoord
+        ((fieldsOf (skyCoord (i + 1) "icrs" [10] [20])).set "extra" (.atom (.str extra))))
+    (.cons "radius" (quantity (i + 6) (.fin 1) "deg" 1)
+    (.cons "meta" (wMeta (i + 4)) (.cons "visual" (wVisual (i + 5)) .nil))))
+
+/-- regression witness of F15v (fixed in 048db14): an ICRS position with an `obstime` against one
+without — the bare `SkyCoord` comparison raises `ValueError`, `==` answers `False` both ways; the
+same extra attribute on both sides compares equal. -/
+example :
+    neV tolNumpy (.node 1 .skycoord ((fieldsOf (skyCoord 1 "icrs" [10] [20])).set "extra" (.atom (.str ""))))
+      (.node 1 .skycoord ((fieldsOf (skyCoord 1 "icrs" [10] [20])).set "extra" (.atom (.str "obstime=J2010.000"))))
+      = .error .valueError ∧
+    eqRegion tolNumpy (wCircleSkyX 0 "") (wCircleSkyX 10 "obstime=J2010.000") = .ok false ∧
+    eqRegion tolNumpy (wCircleSkyX 10 "obstime=J2010.000") (wCircleSkyX 0 "") = .ok false ∧
+    eqRegion tolNumpy (wCircleSkyX 0 "obstime=J2010.000") (wCircleSkyX 10 "obstime=J2010.000") = .ok true ∧
+    wf (wCircleSkyX 0 "obstime=J2010.000") = true := by
+  decide +kernel
 
 end RegionsVerif.Props.C16
